@@ -124,3 +124,35 @@ Definition clean_key (k : str) (ks : list str) : Prop :=
 (* some file the run touches is reported not clean *)
 Definition touches_dirty (rs : list str) (status touched : list str) : Prop :=
   exists f k ks, In f touched /\ In k status /\ clean_key k ks /\ denotes rs ks f.
+
+(* ---------------------------------------------------------------- symbolic links: spelled and resolved paths *)
+
+(* Everything above works on paths AS SPELLED: the arguments as typed, filepath.Abs / Join / Dir of
+   them, the work-tree root as the walk spells it.  Neither cmd/fix.go nor internal/git resolves
+   symbolic links, and the operating system follows them on every access, so for the command a
+   directory reached through a link is simply a directory under its spelled name.  The correspondence
+   check therefore hands the model the tree as seen through the spelled workspace root.
+
+   What the property is about, though, are FILES: [resolve] maps an absolute spelled path to the path
+   without symbolic links (realpath(3)); an oracle.  The gate compares spellings; that protects the
+   files git reports only as far as the spellings it compares are faithful. *)
+
+(* distinct spellings in [paths] name distinct files *)
+Definition faithful (resolve : str -> str) (paths : list str) : Prop :=
+  forall a b, In a paths -> In b paths -> resolve a = resolve b -> a = b.
+
+(* some file the run touches IS (after resolution) a file reported not clean below the root *)
+Definition touches_dirty_resolved (resolve : str -> str) (absroot : str) (status touched : list str) : Prop :=
+  exists f k, In f touched /\ In k status /\ resolve f = resolve (pjoin [absroot; k]).
+
+(* the gate as it would be if the work-tree root were resolved and the provider's paths were not
+   (e.g. a FindGitRepo that answers with the resolved root): one side of the comparison resolved *)
+Definition git_guard_root_resolved (resolve : str -> str) (cwd : str) (rr : repo_result)
+           (status modified deleted : list str) : guard_verdict :=
+  match rr with
+  | RepoAt r =>
+      if is_nil_str_list (filter (fun f => str_in f (map (fun k => pjoin [resolve (fp_abs cwd r); k]) status))
+                                 (modified ++ deleted))
+      then GProceed else GRefuse
+  | RepoNone | RepoErr => GRefuse
+  end.
